@@ -426,6 +426,43 @@ def gen_imports_tree(rng: random.Random) -> Dict[str, Any]:
     files[f"{base}_star2.py"] = f"from {base}_star3 import *\n"
     files[f"{base}_star1.py"] = f"from {base}_star2 import *\n"
     objs += [(f"{base}_star1", "far_func"), (f"{base}_star1", "FAR_CONST"), (f"{base}_star2", "far_func")]
+    # ---- layouts drawn per run (round 4): the ways a module can spell its export list, underscore
+    # names, export lists that come out empty, relative re-exports inside a package, a package
+    # directory next to a stale plain module of the same name, clients inside a package
+    all_form = rng.choice(["aug_list", "aug_tuple", "append", "extend_list", "extend_tuple", "tuple", "concat", "annotated", "list"])
+    all_lines = {
+        "aug_list": "__all__ = ['aug_a']\n__all__ += ['aug_b']\n",
+        "aug_tuple": "__all__ = ['aug_a']\n__all__ += ('aug_b',)\n",
+        "append": "__all__ = ['aug_a']\n__all__.append('aug_b')\n",
+        "extend_list": "__all__ = ['aug_a']\n__all__.extend(['aug_b'])\n",
+        "extend_tuple": "__all__ = ['aug_a']\n__all__.extend(('aug_b',))\n",
+        "tuple": "__all__ = ('aug_a', 'aug_b')\n",
+        "concat": "__all__ = ['aug_a'] + ['aug_b']\n",
+        "annotated": "__all__: list = ['aug_a', 'aug_b']\n",
+        "list": "__all__ = ['aug_a', 'aug_b']\n",
+    }[all_form]
+    files[f"{base}_allaug.py"] = all_lines + "\n\ndef aug_a():\n    return 'aug_a'\n\n\ndef aug_b():\n    return 'aug_b'\n\n\ndef aug_hidden():\n    return 'aug_hidden'\n"
+    # a module that defines aug_hidden itself and is star-imported *before* allaug: python binds this one
+    files[f"{base}_augdecoy.py"] = "def aug_hidden():\n    return 'decoy'\n\n\ndef decoy_only():\n    return 'decoy only'\n"
+    # underscore names: exported only when __all__ lists them
+    files[f"{base}_under1.py"] = "__all__ = ['_shared_priv', 'under1_pub']\n\n\ndef _shared_priv():\n    return 'under1'\n\n\ndef under1_pub():\n    return 'pub1'\n"
+    files[f"{base}_under2.py"] = "def _shared_priv():\n    return 'under2'\n\n\ndef under2_pub():\n    return 'pub2'\n"
+    # an export list that is empty: the module exports nothing although it defines plain_func
+    files[f"{base}_emptyall.py"] = "__all__ = []\n\n\ndef plain_func(x):\n    return ('registry', x)\n\n\ndef empty_only():\n    return 0\n"
+    # package whose plain submodule re-exports by relative import
+    files[f"{base}_rpkg/__init__.py"] = ""
+    files[f"{base}_rpkg/impl.py"] = "def rel_func():\n    return 'rel'\n\n\nREL_CONST = object()\n"
+    files[f"{base}_rpkg/mid.py"] = rng.choice(["from .impl import rel_func, REL_CONST\n", "from .impl import rel_func\nfrom .impl import REL_CONST\n", f"from {base}_rpkg.impl import rel_func\nfrom .impl import REL_CONST\n", "from . import impl\nfrom .impl import *\n"])
+    # optional decoy: a top level module with the name of the package's submodule
+    if rng.random() < 0.5:
+        files["impl.py"] = "def rel_func():\n    return 'top level decoy'\n\n\nREL_CONST = object()\n"
+    # package directory next to a stale plain module of the same name (python imports the package)
+    files[f"{base}_dpkg/__init__.py"] = ""
+    files[f"{base}_dpkg/codec/__init__.py"] = "def encode():\n    return 'package codec'\n"
+    files[f"{base}_dpkg/codec.py"] = f"from {base}_dpkg.legacy import encode\n"
+    files[f"{base}_dpkg/legacy.py"] = "def encode():\n    return 'legacy codec'\n"
+    objs += [(f"{base}_allaug", "aug_a"), (f"{base}_allaug", "aug_b"), (f"{base}_under1", "under1_pub"), (f"{base}_under1", "_shared_priv"),
+             (f"{base}_rpkg.mid", "rel_func"), (f"{base}_rpkg.mid", "REL_CONST"), (f"{base}_dpkg.codec", "encode"), (f"{base}_rpkg.impl", "rel_func")]
     stdlib_nested = [("importlib.util", "find_spec"), ("email.utils", "parseaddr"), ("json.decoder", "JSONDecoder"),
                      ("os.path", "join"), ("xml.dom.minidom", "parseString"), ("collections.abc", "Mapping"), ("urllib.parse", "urlparse")]
     clients: List[str] = []
@@ -446,7 +483,7 @@ def gen_imports_tree(rng: random.Random) -> Dict[str, Any]:
             picked = [(m, n) for m, n in picked if seen_n.setdefault(n, m) == m]
         for mod, name in picked:
             form = rng.choice(["from", "from", "from_as", "import", "import_as", "star", "dup", "in_func", "stacked"])
-            if mod.endswith(("_star1", "_star2")) and not star_used and rng.random() < 0.6:
+            if mod.endswith(("_star1", "_star2", "_allaug")) and not star_used and rng.random() < 0.6:
                 form = "star"
             if form == "star" and (star_used or name.startswith("_") or (mod.endswith("_all") and name == "hidden_func")):
                 form = "from"
@@ -479,6 +516,17 @@ def gen_imports_tree(rng: random.Random) -> Dict[str, Any]:
                 refs.append("sys.path")
             else:  # import inside a function (moved to module level by the tool)
                 late.append(f"def late_{c}_{len(late)}():\n    from {mod} import {name}\n    return {name}\n")
+        # two star imports whose export lists decide who binds a name (orders both ways)
+        scen = rng.random()
+        if scen < 0.12:
+            lines += [f"from {base}_under1 import *", f"from {base}_under2 import *"]
+            refs += ["_shared_priv", "under2_pub"] + (["under1_pub"] if rng.random() < 0.5 else [])
+        elif scen < 0.24:
+            lines += [f"from {base}_plain import *", f"from {base}_emptyall import *"]
+            refs += ["plain_func"]
+        elif scen < 0.36:
+            lines += [f"from {base}_augdecoy import *", f"from {base}_allaug import *"]
+            refs += ["aug_hidden", "aug_a", "aug_b"]
         if rng.random() < 0.4:
             lines.append(rng.choice(["import os.path", "import json", "from collections import OrderedDict", "import unused_never_there_hopefully_not" if False else "import re"]))
             if lines[-1] == "import os.path":
@@ -515,6 +563,30 @@ def gen_imports_tree(rng: random.Random) -> Dict[str, Any]:
         rel = f"{base}_client{c}.py"
         files[rel] = text
         clients.append(rel)
+    if rng.random() < 0.35:
+        # a client that lives inside a package and imports its sibling relatively; optionally a decoy
+        # top level module with the sibling's name (the tool sees only 'csib' in node.module)
+        files[f"{base}_cpk/__init__.py"] = ""
+        files[f"{base}_cpk/csib.py"] = "def sib_func():\n    return 'sibling'\n\n\nSIB_CONST = object()\n"
+        if rng.random() < 0.6:
+            files["csib.py"] = rng.choice([
+                f"from {base}_plain import plain_func as sib_func\nfrom {base}_plain import PLAIN_CONST as SIB_CONST\n",
+                "def sib_func():\n    return 'decoy'\n\n\nSIB_CONST = object()\n",
+                "__all__ = ['sib_func']\n\n\ndef sib_func():\n    return 'decoy'\n",
+            ])
+        form = rng.choice(["from", "star", "module", "from_as", "two"])
+        imp, refs = {
+            "from": ("from .csib import sib_func, SIB_CONST", ["sib_func", "SIB_CONST"]),
+            "star": ("from .csib import *", ["sib_func", "SIB_CONST"]),
+            "module": ("from . import csib", ["csib.sib_func", "csib.SIB_CONST"]),
+            "from_as": ("from .csib import sib_func as sf", ["sf"]),
+            "two": ("from .csib import sib_func\nfrom .csib import SIB_CONST", ["sib_func", "SIB_CONST"]),
+        }[form]
+        text = imp + "\n\n\ndef use_them():\n    return [\n" + "".join(f"        {r},\n" for r in refs) + "    ]\n"
+        text += "\n\nif __name__ == \"__main__\":\n    print(use_them())\n"
+        rel = f"{base}_cpk/relclient.py"
+        files[rel] = text
+        clients.append(rel)
     if not clients:
         files[f"{base}_client0.py"] = f"from {base}_plain import plain_func\n\n\ndef use_them():\n    return [plain_func]\n\n\nif __name__ == \"__main__\":\n    print(use_them())\n"
         clients.append(f"{base}_client0.py")
@@ -544,6 +616,8 @@ def _exec_client_pair(arg: Tuple[Dict[str, str], str, str, str]) -> Dict[str, An
         def run(text: str, name: str):
             mod = types.ModuleType(name)
             mod.__file__ = os.path.join(d, rel)
+            if "/" in rel:  # a client inside a package: relative imports resolve against its package
+                mod.__package__ = os.path.dirname(rel).replace("/", ".")
             exec(compile(text, mod.__file__, "exec"), mod.__dict__)
             return mod
 
